@@ -53,8 +53,8 @@ def step_tla(s, qnames):
         a = "0"
     return "[ev |-> %s, arg |-> %s, st |-> %s]" % (tla(ev), a, state_tla(s["st"], qnames))
 
-def write_mtdata(path, w, runs):
-    """w: gen.Workflow; runs: list of step lists."""
+def write_mtdata(path, w, runs, ends=None):
+    """w: gen.Workflow; runs: list of step lists; ends: how each run ended."""
     qnames = ["default"] + [q["name"] for q in w.queues]
     scripts = {t: set() for t in w.tasks}
     for steps in runs:
@@ -69,6 +69,7 @@ def write_mtdata(path, w, runs):
         f.write("MT_SubmitFail == %s\n" % tla(set(w.tasks)))
         f.write("MT_Faults == [dup |-> 0, reorder |-> FALSE, crash |-> 0, net |-> TRUE]\n")
         f.write("MT_Stop == -999\n")
+        f.write("MT_Ends == %s\n" % tla([str(e) for e in (ends or ["none"] * len(runs))]))
         f.write("MT_Runs == <<\n")
         f.write(",\n".join("<<\n  " + ",\n  ".join(step_tla(s, qnames) for s in steps) + "\n>>" for steps in runs))
         f.write("\n>>\n====\n")
